@@ -1,14 +1,16 @@
 ---- MODULE MCBuffer ----
 (* Closed model for C16: one first object (a VectorisedView over any chunking of
    <= MaxLen position-distinct bytes into <= MaxChunks chunks, empty chunks
-   included, or a View of <= MaxLen bytes, or a Prependable with <= MaxRes bytes of room) and then EVERY
+   included - every chunk its own exact array (slack 0) or all chunks carved from one
+   backing array with sl \in Slacks spare bytes of capacity each - or a View of <= MaxLen
+   bytes with sl spare bytes, or a Prependable with <= MaxRes bytes of room) and then EVERY
    operation sequence on it and on the objects derived from it (<= MaxObj
    objects), with every count from -1 (0 for View, whose contract forbids
    negative counts) to size+1.  Every operation either shrinks something or uses
    up an object slot / prependable room, so the state space is finite without any
    bound on the length of the operation sequence. *)
 EXTENDS Buffer
-CONSTANTS MaxLen, MaxChunks, MaxRes
+CONSTANTS MaxLen, MaxChunks, MaxRes, Slacks
 
 Chunkings == {s \in UNION {[1..k -> 0..MaxLen] : k \in 0..MaxChunks} : SumSeq(s) <= MaxLen}
 
@@ -17,8 +19,8 @@ MCInit == PInit /\ IInit
 Counts == -1..(MaxLen + 1)
 PCounts == 0..(MaxRes + 1)
 MCNext ==
-    \/ \E lens \in Chunkings : NewVV(lens)
-    \/ \E n \in 0..MaxLen : NewView(n)
+    \/ \E lens \in Chunkings, sl \in Slacks : NewVV(lens, sl)
+    \/ \E n \in 0..MaxLen, sl \in Slacks : NewView(n, sl)
     \/ \E r \in 0..MaxRes : NewPrep(r)
     \/ \E o \in 1..MaxObj :
          \/ \E n \in Counts : VTrim(o, n) \/ VCap(o, n) \/ WTrim(o, n) \/ WCap(o, n)
